@@ -5,7 +5,7 @@ import json, os, subprocess, sys, glob, shutil, tempfile
 V = os.path.dirname(os.path.dirname(os.path.abspath(__file__)))
 man = json.load(open(os.path.join(V, "MANIFEST.json")))
 props = [c["property_id"] for c in man["checks"]]
-seeds = sys.argv[1:] or sorted(glob.glob(os.path.join(V, "seeded", "*", "")))
+seeds = [os.path.abspath(a) for a in sys.argv[1:]] or sorted(glob.glob(os.path.join(V, "seeded", "*", "")))
 wt = tempfile.mkdtemp(prefix="oxidd-matrix-")
 os.rmdir(wt)
 subprocess.check_call(["git", "-C", "/repo", "worktree", "add", "--detach", wt, "HEAD", "-q"])
